@@ -298,11 +298,11 @@ Proof.
       destruct (Z.eqb_spec i j) as [E|E].
       * subst j. destruct (V5 i Fi) as (X & Y & (opx & cx & Z1 & Z2 & Z3 & Z4 & Z5) & (rh & rest' & W1 & W2 & W3)). cbv zeta in X, Y, Z4, W1, W2, W3.
         rewrite Hviews in W1. inversion W1. subst rh rest'.
-        change (io_acq_rev (inst_of b i <| io_hb_ta := t |> <| io_hb_te := -1 |> <| io_hb_op := op |>)) with (io_acq_rev (inst_of b i)).
-        change (io_tok (inst_of b i <| io_hb_ta := t |> <| io_hb_te := -1 |> <| io_hb_op := op |>)) with (io_tok (inst_of b i)).
-        change (io_views (inst_of b i <| io_hb_ta := t |> <| io_hb_te := -1 |> <| io_hb_op := op |>)) with (io_views (inst_of b i)).
-        change (io_hb_te (inst_of b i <| io_hb_ta := t |> <| io_hb_te := -1 |> <| io_hb_op := op |>)) with (-1).
-        change (io_hb_op (inst_of b i <| io_hb_ta := t |> <| io_hb_te := -1 |> <| io_hb_op := op |>)) with op.
+        change (io_acq_rev (inst_of b i <| io_hb_ta := t |> <| io_hb_te := -1 |> <| io_hb_op := op |> <| io_hb_ok := false |>)) with (io_acq_rev (inst_of b i)).
+        change (io_tok (inst_of b i <| io_hb_ta := t |> <| io_hb_te := -1 |> <| io_hb_op := op |> <| io_hb_ok := false |>)) with (io_tok (inst_of b i)).
+        change (io_views (inst_of b i <| io_hb_ta := t |> <| io_hb_te := -1 |> <| io_hb_op := op |> <| io_hb_ok := false |>)) with (io_views (inst_of b i)).
+        change (io_hb_te (inst_of b i <| io_hb_ta := t |> <| io_hb_te := -1 |> <| io_hb_op := op |> <| io_hb_ok := false |>)) with (-1).
+        change (io_hb_op (inst_of b i <| io_hb_ta := t |> <| io_hb_te := -1 |> <| io_hb_op := op |> <| io_hb_ok := false |>)) with op.
         split; [exact X|]. split; [apply St; exact Y|]. split.
         -- exists opx, cx. rewrite (Hold _ _ Z1), Ed, Et. auto.
         -- exists exp, rest. split; [exact Hviews|]. split; [intros; lia|]. intros _.
@@ -659,7 +659,7 @@ Proof.
   match goal with |- VInv ?x => set (b' := x) end.
   set (x' := inst_of b i <| io_flag := true |> <| io_tok := v_stok (vinfo_of b (lr_val r)) |> <| io_acq_rev := lr_rev r |>
                         <| io_terms ::= Z.succ |> <| io_views ::= cons (v_stok (vinfo_of b (lr_val r)), lr_rev r) |>
-                        <| io_hb_ta := t |> <| io_hb_te := t |> <| io_hb_op := 0 |>).
+                        <| io_hb_ta := t |> <| io_hb_te := t |> <| io_hb_op := 0 |> <| io_hb_ok := true |>).
   assert (Hi : forall j, inst_of b' j = if i =? j then x' else inst_of b j).
   { intros j. unfold b'. rewrite inst_of_upd. reflexivity. }
   assert (T0 : 0 <= t) by (pose proof (t_now0 _ IT); lia).
